@@ -4,7 +4,7 @@ import json
 import os
 import tempfile
 
-from mc import core, impl, clidrv
+from mc import subchunk, core, impl, clidrv
 from mc.core import ChunkResult
 from mc.ref import cheader, hlog as rhlog, hexdump as rhex
 
@@ -41,6 +41,8 @@ def plan(tier, seed):
     ch.append({'k': 'rewrite'})
     ch.append({'k': 'shipped', 'type': 'mex'})
     ch.append({'k': 'shipped', 'type': 'nimitz'})
+    # the same under python -O (assertions stripped, __debug__ false)
+    ch += [dict(c, optimize=True) for c in [{'k': 'syn', 'sizes': [1, 2]}, {'k': 'syn', 'sizes': [2, 1, 2]}, {'k': 'rewrite'}]]
     return ch
 
 
@@ -168,6 +170,9 @@ def _do(res, case, step=499):
 
 
 def run_chunk(chunk):
+    routed = subchunk.route(__name__, chunk)
+    if routed is not None:
+        return routed
     res = ChunkResult()
     impl.ensure(False)
     if chunk['k'] == 'rewrite':
